@@ -83,6 +83,26 @@ CHECKS += [
           "must equal the reference, which is compared with glibc on every probe (0 mismatches required). Fixed-offset strings, GMT+h sign and a malformed-string menu are checked too.",
   "note": "Trusts refs/posix_tz_ref.py (+glibc as second opinion). Negative savings and rules near the year boundary are outside the alphabet."},
 ]
+CHECKS += [
+ {"id": "C04", "engine": "E1-shape + per-zone timeline walk",
+  "technique": "exhaustive walk of every offset change of every zone object (all TZif files, synthetic shapes, deviation-bounded POSIX rule specs as tzstr/tzrange/VTIMEZONE/tzlocal, fixed offsets) with UTC->local->UTC identity and an independent timeline",
+  "text": "For 447 TZif files + 16 synthetic shapes, every rule spec with <= k deviations (k=3 quick, 4 thorough) in each of the four rule-zone classes, and 15 fixed-offset zones "
+          "(sub-minute, +-23:59:59): at every transition x 17 probe offsets (thorough ~500) the converted datetime must satisfy utcoffset == wall - utc, convert back to the same instant, "
+          "map distinct instants to distinct (wall, fold), and carry the offset and abbreviation the independent timeline assigns to that instant.",
+  "note": "Reference timelines: refs/tzif_ref.py (v1 block, [.., t_last)), refs/posix_tz_ref.py (glibc-checked in C08). Rule specs with transition times outside the day are left to C08."},
+ {"id": "C05", "engine": "E1-shape + per-zone timeline walk",
+  "technique": "exhaustive enumeration of wall times at and around both edges of every gap and fold of every zone x fold in {0,1}; oracle = pre-image count from an independent timeline",
+  "text": "Same zones as C04. For each transition the wall seconds lo-1, lo, lo+1, mid, hi-1, hi, hi+1, +-1 h, +-2 h (thorough: every second within 3 s of the edges and every minute of [lo-2h, hi+2h]) "
+          "are classified by counting UTC pre-images on the independent timeline; datetime_exists / datetime_ambiguous, the meaning of fold, fold set by conversion from UTC, and "
+          "resolve_imaginary (identity on existing times, forward by exactly the gap width otherwise) must agree.",
+  "note": "Wall times with 3+ pre-images are counted and skipped; one synthetic shape (transitions closer than the offset change) is a recorded finding."},
+ {"id": "C17", "engine": "E1-shape",
+  "technique": "deviation-bounded exhaustive enumeration of rule pairs x VTIMEZONE text variants, differential against tzstr and the POSIX reference, incl. replay across the lookup cache",
+  "text": "Every M-form rule spec with <= k deviations (k=2 quick, 4 thorough) rendered as VTIMEZONE with RRULEs or RDATE lists, both component orders, folded/unfolded, CRLF/LF; "
+          "UTC-side and wall-side (both folds, exists/ambiguous) probes around the transitions of 1995 and 2024 must equal tzstr of the same rule and the independent reference; answers must not change when "
+          "probes are replayed in rotated order across the 10-entry cache; first STANDARD applies before the first onset; TZID addressing; 13 malformed definitions must raise ValueError.",
+  "note": "tzstr is the comparison zone (C08 vouches for it on these specs)."},
+]
 _claimed = {c["id"] for c in CHECKS}
 NOT_APPLICABLE = [{"property_id": p, "reason": "check not built yet (work in progress; see DESIGN.md §5 build order)"}
                   for p in ALL if p not in _claimed]
